@@ -1,7 +1,7 @@
 """C18 concurrency: registry lockset (R18a), shared GF tables (R18b), lock pairing (R18d)."""
 import re
 from .. import api, lockset, callgraph
-from ..vflow import access_path, fields_in_path
+from ..vflow import access_path, fields_in_path, derived_pointers
 from ..ir import parse_initializer
 from ..build import AnalysisBroken
 
@@ -306,6 +306,31 @@ def run(ctx):
             else:
                 r.ok(f'{f.name}: no path returns holding an acquired lock', loc=ret.loc, func=f.name)
     r.require_min(2, 'returns of locking functions')
+    # ---------------- R18h tables shared by all instances of a shape are read-only at run time
+    r = ctx.rule('R18h', 'the flat-XOR equation tables (what xor_code_t.parity_bms / data_bms point at) are never written at run time',
+                 'every instance of a shape points at the same static table: a create that rewrites it races with the decodes of other threads\' instances')
+    nw = 0
+    for fn in P.fns.values():
+        if not re.search(r'xor', fn.mod.src):
+            continue
+        tabs = [q.res for q in fn.insts() if q.op == 'load' and fields_in_path(access_path(P, fn, q.ops[0])[1])[-1:] in ([('xor_code_s', 'parity_bms')], [('xor_code_s', 'data_bms')])]
+        if not tabs:
+            continue
+        D, _ = derived_pointers(fn, tabs)
+        for i in fn.insts():
+            w = None
+            if i.op == 'store' and i.ops[1] in D:
+                w = 'a store'
+            elif i.op == 'call' and (i.callee.startswith('@llvm.memset') or i.callee.startswith('@llvm.memcpy') or i.callee in ('@memset', '@memcpy', '@bzero')) and i.ops and i.ops[0] in D:
+                w = i.callee[1:]
+            if w:
+                nw += 1
+                r.fail(f'{fn.name}: write into an equation table at line {i.line}', func=fn.name, sig='equation table written at run time', loc=i.loc,
+                       msg=f'{fn.name} writes ({w}) through xor_code_t.parity_bms / data_bms: the tables are static data shared by every instance of the shape, '
+                           'so this write races with other threads that decode or plan with an instance of the same shape')
+    if not nw:
+        r.ok('no function writes through xor_code_t.parity_bms / data_bms', loc='src/builtin/xor_codes')
+    r.require_min(1)
     ctx.extra['entry_points'] = pub
     ctx.extra['registry_lock'] = reglock
     ctx.borrow('c15', ['R15d'], 'operations on different instances share no writable static state')
